@@ -17,7 +17,8 @@ def lib_functions(tu):
 
 
 class ModelExec(object):
-    def __init__(self, model, suffix=""):
+    def __init__(self, model, suffix="", vectors=False, havoc_loops=False):
+        self.havoc_loops = havoc_loops
         self.model = model
         self.tu = cvc.model_tu(model)
         self.info = self.tu.info
@@ -26,9 +27,18 @@ class ModelExec(object):
         self.q = z3.Real("q" + suffix)
         self.pars = {}
         self.iq_args = []
+        self.vector_pars = {}
         for p in pt.iq_parameters:
             if p.length > 1:
-                raise OutsideSubset("vector parameter %s" % p.id)
+                if not vectors:
+                    raise OutsideSubset("vector parameter %s" % p.id)
+                # a vector parameter is an arbitrary function of the index (read-only array of its declared length)
+                f = z3.Function(p.id + suffix, z3.IntSort(), z3.RealSort())
+                arr = cvc.CArr(lambda j, f=f: f(j), "real", p.id, p.length)
+                self.vector_pars[p.id] = f
+                self.pars[p.id] = arr
+                self.iq_args.append(Ptr(arr, 0))
+                continue
             v = z3.Real(p.id + suffix)
             self.pars[p.id] = v
             self.iq_args.append(v)
@@ -48,11 +58,18 @@ class ModelExec(object):
                 try:
                     ex_._ord -= 1
                     return ex_.s_ForStmt(s, st)
+                except OutsideSubset as exc:
+                    if self.havoc_loops and "symbolic trip count" in str(exc):
+                        return cvc.HavocLoop()(ex_, s, st, key)
+                    raise
                 finally:
                     ex_.loop_contracts[(key[0], "for*")] = handler
             return SigmaLoop()(ex_, s, st, key)
         for f in self.tu.functions:
             ex.loop_contracts[(f, "for*")] = handler
+            if self.havoc_loops:
+                ex.loop_contracts[(f, "do*")] = cvc.HavocLoop()
+                ex.loop_contracts[(f, "while*")] = cvc.HavocLoop()
         return ex
 
     def run_1d(self):
